@@ -404,6 +404,10 @@ impl Configuration {
         region_dispatch!(self, get_datarate, dr)
     }
 
+    pub(crate) fn uplink_datarate_valid(&self, dr: u8) -> bool {
+        region_dispatch!(self, uplink_datarate_valid, dr)
+    }
+
     pub(crate) fn check_tx_power(&self, tx_power: u8) -> Option<Option<u8>> {
         region_dispatch!(self, check_tx_power, tx_power).map(Some)
     }
@@ -548,6 +552,11 @@ pub(crate) trait RegionHandler {
     ) -> (bool, bool);
 
     fn get_datarate(&self, dr: u8) -> Option<&Datarate>;
+
+    /// Whether `dr` may be used for uplinks (some regions define downlink-only datarates)
+    fn uplink_datarate_valid(&self, dr: u8) -> bool {
+        self.get_datarate(dr).is_some()
+    }
 
     fn get_default_datarate(&self) -> DR {
         DR::_0
